@@ -13,7 +13,7 @@ import (
 func init() {
 	register(&Rule{
 		ID:    "C10.write",
-		Props: []string{"C10", "C11", "C04", "C08", "C17"},
+		Props: []string{"C10", "C11", "C04", "C08", "C17", "C14"},
 		Doc:   "read-only heap: no store, copy, in-place sort/heap operation, map update or in-place append targets memory that is reachable from a parameter/receiver/global through a protected type (Sequence, the 7 geometry types, Geometry, Envelope, RTree, node, entry); functions that mutate a plain slice parameter are summarised (mutates(f,i), fixpoint over the call graph, closures attributed to the owning function) and every call site must pass fresh memory or propagate; exported functions may mutate a parameter only if reviewed",
 		Floor: 150,
 		Run:   runC10Write,
